@@ -29,6 +29,8 @@ def project(v, depth=0):
         return {"ty": "vec", "xs": [project(x, depth + 1) for x in v]}
     if isinstance(v, runtime.Var):
         return {"ty": "var", "n": v.name.name}
+    if isinstance(v, Obj):
+        return {"ty": "obj"}
     if isinstance(v, runtime.Unbound):
         return {"ty": "unbound"}
     if isinstance(v, BaseException):
@@ -38,6 +40,28 @@ def project(v, depth=0):
     if isinstance(v, ISeq):
         return {"ty": "seq", "xs": [project(x, depth + 1) for x in v]}
     return {"ty": "other", "c": type(v).__name__}
+
+
+class Obj:
+    """the harness object `o`: reading property p<n> logs 100+n (and yields n, nil for n = 0); calling method
+    m<n> logs 200+n and returns the vector of its arguments"""
+
+    def __init__(self, log):
+        self._log = log
+
+    def _p(self, n):
+        self._log.append(100 + n)
+        return n if n else None
+
+    def _m(self, n, args):
+        from basilisp.lang import vector as vec
+        self._log.append(200 + n)
+        return vec.vector(args)
+
+
+for _n in range(4):
+    setattr(Obj, "p%d" % _n, property(lambda self, _n=_n: self._p(_n)))
+    setattr(Obj, "m%d" % _n, lambda self, *args, _n=_n: self._m(_n, args))
 
 
 class _Identity:
@@ -73,6 +97,7 @@ class Runner:
             log.append(k)
             return v[0] if v else k
         runtime.Var.intern(self.sc.ns, sym.symbol("m"), m)
+        runtime.Var.intern(self.sc.ns, sym.symbol("o"), Obj(log))
         self.dirty = False
 
     def run(self, text):
